@@ -3,7 +3,7 @@
    (Section variables of Proofs/Wire_proofs.v), validated on recorded values on every run. *)
 From Coq Require Import List NArith ZArith Bool.
 Import ListNotations.
-From VF Require Import Base Label Wire Wire_proofs.
+From VF Require Import Base Label Wire Wire_proofs Stream Stream_proofs.
 Local Open Scope N_scope.
 
 Theorem C12_packet_roundtrip : forall seal open comp decomp,
@@ -37,6 +37,23 @@ Print Assumptions C12_pkcs7.
 Theorem C12_crc_header : forall x, x < 4294967296 -> match be32 x with [a; b; c; d] => rd32 a b c d = x | _ => False end.
 Proof. exact rd32_be32. Qed.
 Print Assumptions C12_crc_header.
+
+(* stream path: rawSendMsgStream (+ encryptLocalState) then readStream (+ decryptRemoteState):
+   the peer gets the message type and body back, for user messages (any payload incl. the empty one),
+   push/pull state and pings alike *)
+Theorem C12_stream_roundtrip : forall seal open comp decomp,
+  (forall k n p ad, open k n (seal k n p ad) ad = Some p) ->
+  (forall k k' n p ad, k <> k' -> open k' n (seal k n p ad) ad = None) ->
+  (forall k n p ad, length (seal k n p ad) = (length p + 16)%nat) ->
+  (forall m, exists body, comp m = t_compress :: body /\ decomp body = Some m) ->
+  forall cs cr label t body nonce,
+  length nonce = 12%nat -> (encvsn cs = 0 \/ encvsn cs = 1) ->
+  t <> t_compress -> t <> t_encrypt ->
+  encrypted_length (encvsn cs) (blen (if compress_on cs then comp (t :: body) else t :: body)) <= max_push_state_bytes ->
+  ((enc_on cs && verify_out cs = true /\ In (primary cs) (keys cr)) \/ (enc_on cs && verify_out cs = false /\ enc_on cr = false)) ->
+  read_stream open decomp cr label (stream_frame seal comp cs label (t :: body) nonce) = SOk t body.
+Proof. exact stream_roundtrip. Qed.
+Print Assumptions C12_stream_roundtrip.
 
 Example C12_crc_check_value : crc32 [49;50;51;52;53;54;55;56;57] = 3421780262.
 Proof. vm_compute. reflexivity. Qed.
